@@ -96,6 +96,7 @@ fn main() {
         return;
     }
     let code = match id.as_str() {
+        "C01" => props::c01::run(tier, seed, replay.as_deref()),
         "C06" => props::c06::run(tier, seed, replay.as_deref()),
         "C12" => props::c12::run(tier, seed, replay.as_deref()),
         "C13" => props::c13::run(tier, seed, replay.as_deref()),
